@@ -165,6 +165,19 @@ Proof.
   intros id. rewrite flushed_write_events, Hhi, appended_leaves. reflexivity.
 Qed.
 
+(* ---------------- zapio.Writer: only when its level is enabled ---------------- *)
+Theorem zapio_partial w lg io l :
+  enabled w (lcore lg) l = true -> terminal lg l ->
+  log_call w lg io (fam_of zapio_method) l = (write_events io l (appended w (lcore lg) l), Some (expected_action lg l)).
+Proof.
+  intros He Ht. rewrite log_call_eq.
+  assert (reaches_check w (lcore lg) (fam_of zapio_method) l = true) as ->.
+  { apply reaches_check_accepted. rewrite <- enabled_accepts. exact He. }
+  rewrite (finish_terminal lg io l _ Ht), logger_check_cores. reflexivity.
+Qed.
+Definition zapio_full : Prop :=
+  forall w lg io l, terminal lg l -> snd (log_call w lg io (fam_of zapio_method) l) = Some (expected_action lg l).
+
 (* ---------------- the code before the zapgrpc fix ---------------- *)
 Definition terminates_orig_full : Prop :=
   forall w lg io m l, In m methods -> can_log m l = true -> terminal lg l ->
@@ -178,6 +191,9 @@ Proof.
   assert (In fatalln methods) as Hin by (vm_compute; tauto).
   specialize (H Hin eq_refl (or_intror (or_introl eq_refl))). vm_compute in H. discriminate H.
 Qed.
+
+Lemma zapio_full_refuted : ~ zapio_full.
+Proof. intros H. specialize (H w0 quiet_logger all_io FatalL (or_intror (or_introl eq_refl))). vm_compute in H. discriminate H. Qed.
 
 (* ---------------- wire ---------------- *)
 Lemma dec_enc_ev e : dec_ev (enc_ev e) = e.
